@@ -1,5 +1,5 @@
 --------------------------------- MODULE Sched ---------------------------------
-(* DRAFT (round 0).  The scheduler at the level C01 talks about: where each coroutine is.
+(* The scheduler at the level C01 talks about: where each coroutine is.
    src/scheduler.rs (schedule_global / collect_global / run_queued_tasks / steal_into),
    coroutine_impl.rs run_coroutine (resume -> Some(subscriber) | None), yield_now.rs.
    Queues are the L0 contracts (FIFO global mpsc; owner-ordered local spmc whose steal takes a
